@@ -115,7 +115,7 @@ def execute(mod, cfg, desc, ops=None, rng=None, seed=None) -> RunResult:
                         break
                     res.ops.append(op)
                     ev = world.apply(op)
-                    res.events.append(ev)
+                    res.events.append([digest(op)] + list(ev))
                     res.steps += 1
             else:
                 for op in ops:
@@ -125,7 +125,7 @@ def execute(mod, cfg, desc, ops=None, rng=None, seed=None) -> RunResult:
                     except Unresolvable:
                         res.ops.pop()
                         continue
-                    res.events.append(ev)
+                    res.events.append([digest(op)] + list(ev))
                     res.steps += 1
             world.finish()
         except Violation as v:
